@@ -12,6 +12,7 @@ import (
 
 func init() {
 	reg("C14_BigIntCasterRoundTrip", C14_BigIntCasterRoundTrip)
+	reg("C14_BigIntCasterWordBoundaries", C14_BigIntCasterWordBoundaries)
 	reg("C14_BigIntCasterDecodeTotal", C14_BigIntCasterDecodeTotal)
 }
 
@@ -26,12 +27,33 @@ func magLen() int {
 // the bytes written, the bytes are sign‖big-endian(m) (zero → 00 00, nil → 00) and decoding
 // returns an equal value. The buffer is pre-filled with arbitrary bytes (MarshalTo is public).
 func C14_BigIntCasterRoundTrip() {
+	casterRoundTrip(true, func() []byte { return verif.BytesLen("mag", 0, magLen()) })
+}
+
+// C14_BigIntCasterWordBoundaries: the same for magnitudes around the machine-word sizes - 7, 8, 9
+// bytes (and 15, 16, 17 thorough) with a non-zero leading byte, all other bytes arbitrary - so
+// that 2^63 <= m < 2^64 and 2^64 <= m are in range (a decoder or encoder that goes through
+// int64 / uint64 is wrong exactly there).
+func C14_BigIntCasterWordBoundaries() {
+	casterRoundTrip(false, func() []byte {
+		lens := []int{7, 8, 9}
+		if verif.Thorough() {
+			lens = []int{7, 8, 9, 15, 16, 17}
+		}
+		m := verif.Bytes("mag", lens[verif.Choose("mag.len", len(lens))])
+		verif.Assume(m[0] != 0)
+		verif.Reach("top-bit-set", m[0] >= 0x80)
+		return m
+	})
+}
+
+func casterRoundTrip(canBeZero bool, genMag func() []byte) {
 	c := &data.BigIntCaster{}
 	var x *big.Int
 	neg := false
 	var mag []byte
 	if !verif.Bool("nil") {
-		mag = verif.BytesLen("mag", 0, magLen())
+		mag = genMag()
 		x = new(big.Int).SetBytes(mag)
 		neg = verif.Bool("neg")
 		if neg {
@@ -91,7 +113,9 @@ func C14_BigIntCasterRoundTrip() {
 	}
 	if x != nil {
 		verif.Reach("negative", verif.And(neg, x.Sign() < 0))
-		verif.Reach("zero", x.Sign() == 0)
+		if canBeZero {
+			verif.Reach("zero", x.Sign() == 0)
+		}
 	} else {
 		verif.Reach("nil", true)
 	}
